@@ -1141,8 +1141,8 @@ func (f *fragment) sum(filter *Row, bitDepth uint) (sum int64, count uint64, err
 	}
 	count = consider.Count()
 
-	// Determine positive & negative sets.
-	nrow := f.row(bsiSignBit)
+	// Determine positive & negative sets (both within the considered columns).
+	nrow := consider.Intersect(f.row(bsiSignBit))
 	prow := consider.Difference(nrow)
 
 	// Compute the sum based on the bit count of each row multiplied by the
